@@ -55,6 +55,9 @@ const FAULTS: &[(&str, bool)] = &[
     ("slow-ok", true),
     ("slow-6s-ok", false),
     ("fail-once-partial-then-real", true),
+    ("fail-once-long-then-real-x2", true),
+    ("partial-close-stdout-linger-exit1", true),
+    ("partial-close-stdout-linger-kill", true),
     ("exit1-noisy-stderr-0", true),
     ("exit1-noisy-stderr-1", true),
     ("exit1-no-read-x6", true),
@@ -273,6 +276,15 @@ fn stub_script(fault: &str, real: &str, cat: &str, head: &str, sleep: &str) -> O
         "fail-once-partial-then-real" => format!(
             "f=\"$0.seen.$PPID\"\nif [ -e \"$f\" ]; then exec {real} \"$@\"; fi\n: > \"$f\"\n{cat} >/dev/null\nprintf 'pub const SOURCE'\nkill -9 $$\n"
         ),
+        // two calls in one process: the formatter of the first prints a LONG text and fails, the second works - whatever scratch space
+        // the generator keeps the formatter's output in must not carry the failed run's text into the next result
+        "fail-once-long-then-real-x2" => format!(
+            "f=\"$0.seen.$PPID\"\nif [ -e \"$f\" ]; then exec {real} \"$@\"; fi\n: > \"$f\"\n{cat} >/dev/null\ni=0\nwhile [ $i -lt 6000 ]; do printf 'pub const STALE_%s: u32 = %s;\\n' $i $i; i=$((i+1)); done\nexit 1\n"
+        ),
+        // reads everything, prints a partial text, CLOSES its stdout and only a second later fails / is killed: end-of-file on the
+        // pipe is not the end of the process
+        "partial-close-stdout-linger-exit1" => format!("{cat} >/dev/null\nprintf 'pub struct Partial {{ pub a: u32,'\nexec 1>&-\n{sleep} 1\nexit 1\n"),
+        "partial-close-stdout-linger-kill" => format!("{cat} >/dev/null\nprintf 'pub struct Partial {{ pub a: u32,'\nexec 1>&-\n{sleep} 1\nkill -9 $$\n"),
         // fails after reading, with a long non-ASCII diagnostic on stderr (2-, 3- and 4-byte characters; the two variants shift every
         // character boundary by one byte): whatever the generator does with the formatter's stderr must not matter
         "exit1-noisy-stderr-0" | "exit1-noisy-stderr-1" => {
@@ -338,7 +350,8 @@ fn run_child(path_env: &str, fault: &str, file: &str, index: usize, timeout: Dur
     let mut child = Command::new(exe)
         .args(["--child", fault, file, &index.to_string()])
         .env("PATH", path_env)
-        .env("FAULTS_REPEAT", if fault.ends_with("-x6") { "6" } else { "1" })
+        .env("FAULTS_REPEAT", if fault.ends_with("-x6") { "6" } else if fault.ends_with("-x2") { "2" } else { "1" })
+        .env("FAULTS_REPEAT_MODE", if fault.contains("-then-real-x") { "last" } else { "all-equal" })
         // the variable `cargo fmt` / bindgen honour: pointing at a formatter that prints garbage, empty, blank, or a command with
         // arguments that would change the formatting; the generator's formatter is `rustfmt` on PATH whatever it says
         .env("FAULTS_RUSTFMT", match fault {
@@ -457,7 +470,8 @@ fn child_main(file: &str, index: usize) {
             (Err(_), Err(_)) => true,
             _ => false,
         };
-        if !same {
+        // `last`: the calls are expected to differ in formatting (the first formatter run fails); only the LAST result is judged
+        if !same && std::env::var("FAULTS_REPEAT_MODE").as_deref() != Ok("last") {
             println!("{}", tagged("child", vec![tagged("panic", vec![string(format!("call {} of {} in one process gives another result than the first", k + 1, repeat))]), nat(0u32), string(""), atom("n/a")]).render());
             return;
         }
@@ -567,7 +581,7 @@ const SYNTH_SMALL: &[&str] = &[
 /// (re-spacing, line splitting, re-escaping) would damage inside the `SOURCE` string literal: punctuation
 /// followed by blanks, runs of blanks, tabs, CR LF, quotes and backslashes in comments, Rust-looking text,
 /// a non-ASCII identifier.
-const TRICKY_SOURCE: &str = "// \"quoted\" \\ back\\slash :: <T> pub fn x ( ) { ; }  'a'\r\nstruct P { a: f32, b: vec2<f32> }   \n@group(0) @binding(0) var<uniform> p: P;\n@compute @workgroup_size(1)\nfn main() {\tvar s = 0.0; for (var i = 0u; i < 4u; i++) { s += p.a; } ; { } var \u{394}t = s; }\n";
+const TRICKY_SOURCE: &str = "// \"quoted\" \\ back\\slash :: <T> pub fn x ( ) { ; }  'a' wgpu :: ShaderStages # [derive (Debug)] & 'static -> => . , ;\r\nstruct P { a: f32, b: vec2<f32> }   \n@group(0) @binding(0) var<uniform> p: P;\n@compute @workgroup_size(1)\nfn main() {\tvar s = 0.0; for (var i = 0u; i < 4u; i++) { s += p.a; } ; { } var \u{394}t = s; }\n";
 
 /// Always selected (large): ~250 KB of 3-byte characters in a comment of the embedded source - every fixed-size read of the
 /// formatter's output cuts through a character somewhere
